@@ -233,7 +233,7 @@ func checkC16(c *Ctx) {
 	}
 	k8 := func(v int64) Val { return mkConst(v, 8, false) }
 	evs := []c16ev{
-		{d(0), []Val{k8(0xFF), k8(0x01), k8(0x01), data("txt")}},
+		{d(0), []Val{k8(0xFF), k8(0x06), k8(0x00)}}, // a meta event without payload (same length as end-of-track) must not end the track
 		{d(1), []Val{k8(0x99), data("k1"), data("v1")}},
 		{d(2), []Val{k8(0x9F), data("k2"), data("v2")}},
 		{d(3), []Val{k8(0xB9), data("cc"), data("cv")}},
